@@ -44,6 +44,12 @@ pub struct Call {
     /// `Typstyle::new`
     #[serde(default)]
     pub via_clone: bool,
+    /// `Op::Inspect` only: the inspector callback itself formats another document
+    /// (`format_content(docs[n], cfg)`) before it returns - a call nested inside a call on the same
+    /// thread, the one interleaving that threads cannot produce. Both results are compared with
+    /// their own single-call references.
+    #[serde(default)]
+    pub nest: Option<(usize, Cfg)>,
 }
 
 #[derive(Serialize, Deserialize, Clone, Debug, PartialEq, Eq)]
